@@ -298,6 +298,8 @@ def path_case(ctx, drv, judge_internal=False, label='update-entry-for-path'):
                 ctx.fail('internal-error', scen, impl['err'])
             else:
                 ctx.count('internal-error(out of scope here, see C18)')
+        if judge_internal:
+            return                      # C18 asks only how the call ends; what it may touch is C10's question
         changed = sorted(p for p in set(before) | set(after) if before.get(p) != after.get(p))
         foreign = [p for p in changed if not os.path.basename(p).startswith('Manifest')]
         if foreign:
